@@ -17,7 +17,7 @@
    Part 4  the free instance (state = the sequence of writers so far, a dirty marker while a writer is at
            work) used by the oracle as a monitor of observed executions and by the examples.
    Part 5  [oracle_C17]. *)
-From Coq Require Import List String Ascii Bool NArith Arith.
+From Coq Require Import List Ascii Bool NArith Arith.
 From PyCasbin Require Import Base SyncedBase.
 From PyCasbinGen Require Import SyncedGen.
 Import ListNotations.
@@ -31,8 +31,8 @@ Inductive mclass :=
 | CPure.    (* touches no state of the enforcer instance at all *)
 
 (* (method, (class, returns a value)) for EVERY public method of casbin.Enforcer *)
-Local Open Scope string_scope.
-Definition api_table : list (string * (mclass * bool)) := [
+Local Open Scope text_scope.
+Definition api_table : list (text * (mclass * bool)) := [
   (* core_enforcer.py *)
   ("init_with_file", (CWrite, false)); ("init_with_adapter", (CWrite, false));
   ("init_with_model_and_adapter", (CWrite, false)); ("new_model", (CPure, true));
@@ -102,27 +102,27 @@ Definition api_table : list (string * (mclass * bool)) := [
   ("get_implicit_users_for_resource_by_domain", (CRead, true));
   ("get_allowed_object_conditions", (CRead, true))
 ].
-Local Close Scope string_scope.
+Local Close Scope text_scope.
 
-Fixpoint assoc {A} (k : string) (l : list (string * A)) : option A :=
+Fixpoint assoc {A} (k : text) (l : list (text * A)) : option A :=
   match l with
   | [] => None
-  | (k', v) :: r => if String.eqb k k' then Some v else assoc k r
+  | (k', v) :: r => if text_eqb k k' then Some v else assoc k r
   end.
 
-Definition classify (m : string) : option (mclass * bool) := assoc m api_table.
-Definition known (m : string) : bool := match classify m with Some _ => true | None => false end.
+Definition classify (m : text) : option (mclass * bool) := assoc m api_table.
+Definition known (m : text) : bool := match classify m with Some _ => true | None => false end.
 
 (* an unclassified method is treated as mutating and value-returning (fail-safe) *)
-Definition mutating (m : string) : bool :=
+Definition mutating (m : text) : bool :=
   match classify m with Some (CRead, _) | Some (CPure, _) => false | _ => true end.
-Definition stateless (m : string) : bool :=
+Definition stateless (m : text) : bool :=
   match classify m with Some (CPure, _) => true | _ => false end.
-Definition returns_value (m : string) : bool :=
+Definition returns_value (m : text) : bool :=
   match classify m with Some (_, b) => b | None => true end.
 
 (* attributes of the wrapped enforcer that are not state in the sense of the property *)
-Definition benign_attr (a : string) : bool := String.eqb a "logger"%string.
+Definition benign_attr (a : text) : bool := text_eqb a "logger"%text.
 
 (* ================================================================== Part 2: the lock discipline of one wrapper *)
 Definition lockmode_eqb (a b : lockmode) : bool :=
@@ -130,8 +130,8 @@ Definition lockmode_eqb (a b : lockmode) : bool :=
 
 Definition argx_eqb (a b : argx) : bool :=
   match a, b with
-  | APos x, APos y | AStar x, AStar y | AStarStar x, AStarStar y | AOther x, AOther y => String.eqb x y
-  | AKw k x, AKw k' y => String.eqb k k' && String.eqb x y
+  | APos x, APos y | AStar x, AStar y | AStarStar x, AStarStar y | AOther x, AOther y => text_eqb x y
+  | AKw k x, AKw k' y => text_eqb k k' && text_eqb x y
   | _, _ => false
   end.
 
@@ -144,18 +144,18 @@ Definition expected_args (p : params) : list argx :=
 
 Definition forwards_all (w : wrapper) : bool := list_eqb argx_eqb (w_args w) (expected_args (w_params w)).
 
-Definition find_api (api : list apisig) (m : string) : option apisig :=
-  find (fun a => String.eqb (a_name a) m) api.
+Definition find_api (api : list apisig) (m : text) : option apisig :=
+  find (fun a => text_eqb (a_name a) m) api.
 
 Definition nreq (p : params) : nat := List.length (p_pos p) - List.length (p_defaults p).
 
 (* default text of positional parameter k of p, if it has one *)
-Fixpoint index_str (k : string) (l : list string) : option nat :=
+Fixpoint index_str (k : text) (l : list text) : option nat :=
   match l with
   | [] => None
-  | x :: r => if String.eqb k x then Some O else option_map S (index_str k r)
+  | x :: r => if text_eqb k x then Some O else option_map S (index_str k r)
   end.
-Definition pos_default (p : params) (k : string) : option string :=
+Definition pos_default (p : params) (k : text) : option text :=
   match index_str k (p_pos p) with
   | Some i => if Nat.leb (nreq p) i then nth_error (p_defaults p) (i - nreq p) else None
   | None => None
@@ -163,27 +163,29 @@ Definition pos_default (p : params) (k : string) : option string :=
 
 Definition opt_is_some {A} (o : option A) : bool := match o with Some _ => true | None => false end.
 
-(* every call the plain method accepts positionally is accepted by the wrapper and vice versa
-   (the wrapper may spell trailing optional positionals of the target as *args) *)
+(* the wrapper accepts exactly the calls the plain method accepts, positional or by keyword: same number of
+   required and optional positional parameters with the same default texts, *args iff the target has *args,
+   keyword-only parameters that exist in the target with the same default, **kwargs iff the target has it
+   (a wrapper that spells an optional positional parameter of the target as *args rejects the keyword call
+   f(x, domain="d") that the plain method accepts: not allowed) *)
 Definition sig_ok (wp tp : params) : bool :=
   Nat.eqb (nreq wp) (nreq tp)
   && (match p_var wp, p_var tp with
       | None, None | Some _, Some _ =>
-          Nat.eqb (List.length (p_pos wp)) (List.length (p_pos tp)) && list_eqb String.eqb (p_defaults wp) (p_defaults tp)
-      | Some _, None => Nat.leb (List.length (p_pos wp)) (List.length (p_pos tp)) && Nat.eqb (List.length (p_defaults wp)) 0
-      | None, Some _ => false
+          Nat.eqb (List.length (p_pos wp)) (List.length (p_pos tp)) && list_eqb text_eqb (p_defaults wp) (p_defaults tp)
+      | _, _ => false
       end)
   && forallb (fun kd => match assoc (fst kd) (p_kwonly tp) with
-                        | Some d => String.eqb d (snd kd)
+                        | Some d => text_eqb d (snd kd)
                         | None => match pos_default tp (fst kd) with
-                                  | Some d => String.eqb d (snd kd)
+                                  | Some d => text_eqb d (snd kd)
                                   | None => false
                                   end
                         end) (p_kwonly wp)
   && Bool.eqb (opt_is_some (p_kwvar wp)) (opt_is_some (p_kwvar tp)).
 
 (* the lock held is strong enough for the target *)
-Definition lock_ok (m : lockmode) (t : string) : bool :=
+Definition lock_ok (m : lockmode) (t : text) : bool :=
   match m with
   | LW => true
   | LR => negb (mutating t)
@@ -204,7 +206,7 @@ Definition wrapper_faults (api : list apisig) (w : wrapper) : list N :=
   match w_target w with
   | Some t =>
       (if known t then [] else [1%N])
-      ++ (if String.eqb (w_name w) t then [] else [2%N])
+      ++ (if text_eqb (w_name w) t then [] else [2%N])
       ++ (if lock_ok (w_mode w) t then [] else [match w_mode w with LR => 3%N | _ => 4%N end])
       ++ (if forwards_all w then [] else [5%N])
       ++ (if implb (returns_value t) (w_returns w) then [] else [6%N])
@@ -231,8 +233,8 @@ Definition worded_ok (w : wrapper) : Prop :=
     /\ forwards_all w = true
     /\ (returns_value t = true -> w_returns w = true).
 
-Definition find_wrapper (tbl : list wrapper) (n : string) : option wrapper :=
-  find (fun w => String.eqb (w_name w) n) tbl.
+Definition find_wrapper (tbl : list wrapper) (n : text) : option wrapper :=
+  find (fun w => text_eqb (w_name w) n) tbl.
 
 (* coverage facts about the hand table w.r.t. the regenerated API *)
 Definition api_classified (api : list apisig) : bool := forallb (fun a => known (a_name a)) api.
@@ -241,29 +243,29 @@ Definition table_exact (api : list apisig) : bool :=
 Definition returns_agree (api : list apisig) : bool :=
   forallb (fun a => Bool.eqb (returns_value (a_name a)) (a_returns a)) api.
 (* public Enforcer methods that SyncedEnforcer does not offer at all (informative) *)
-Definition unwrapped (api : list apisig) (tbl : list wrapper) : list string :=
+Definition unwrapped (api : list apisig) (tbl : list wrapper) : list text :=
   map a_name (filter (fun a => negb (opt_is_some (find_wrapper tbl (a_name a)))) api).
 
 (* the public Enforcer methods that SyncedEnforcer deliberately does not offer (calling them on a
    SyncedEnforcer raises AttributeError: nothing unsynchronised can happen).  A public method that appears in
    the plain API later and is neither wrapped nor listed here breaks SyncedTie.unwrapped_listed. *)
-Local Open Scope string_scope.
-Definition deliberately_unwrapped : list string := [
+Local Open Scope text_scope.
+Definition deliberately_unwrapped : list text := [
   "configure_logging"; "enable_auto_notify_watcher"; "get_allowed_object_conditions"; "get_named_role_manager";
   "init_rm_map"; "init_with_adapter"; "init_with_file"; "init_with_model_and_adapter";
   "load_increment_filtered_policy"; "new_model"; "set_named_role_manager"; "update_filtered_named_policies";
   "update_filtered_policies"; "update_named_policies"; "update_named_policy"; "update_policies"; "update_policy" ].
-Local Close Scope string_scope.
+Local Close Scope text_scope.
 Definition unwrapped_listed (api : list apisig) (tbl : list wrapper) : bool :=
-  forallb (fun m => existsb (String.eqb m) deliberately_unwrapped) (unwrapped api tbl).
+  forallb (fun m => existsb (text_eqb m) deliberately_unwrapped) (unwrapped api tbl).
 
 (* the lock a call of wrapper [m] takes according to the table, and which wrappers count as ONE call of the
    machine of Part 3: the delegating ones and the inline ones whose whole body holds the write lock (the others
    — is_auto_loading_running, start/stop_auto_load_policy, _auto_load_policy — touch only the wrapper's own
    AtomicBool or are loops of wrapped calls) *)
-Definition table_mode (tbl : list wrapper) (m : string) : lockmode :=
+Definition table_mode (tbl : list wrapper) (m : text) : lockmode :=
   match find_wrapper tbl m with Some w => w_mode w | None => LNone end.
-Definition callable (tbl : list wrapper) (m : string) : bool :=
+Definition callable (tbl : list wrapper) (m : text) : bool :=
   match find_wrapper tbl m with
   | Some w => opt_is_some (w_target w) || lockmode_eqb (w_mode w) LW
   | None => false
@@ -535,22 +537,22 @@ Definition admissible (lens : list nat) (prec : list (callid * callid)) (order :
   existsb (list_eqb callid_eqb order) (lin_exts (List.length (all_ids lens)) (all_ids lens) prec).
 
 (* ================================================================== Part 5: oracle *)
-Definition string_of_str (s : str) : string :=
-  fold_right (fun n acc => String (ascii_of_N n) acc) EmptyString s.
-Fixpoint str_of_string (s : string) : str :=
-  match s with EmptyString => [] | String a r => N_of_ascii a :: str_of_string r end.
-Definition vstring (s : string) : val := vstr (str_of_string s).
-Definition as_string (v : val) : option string := option_map string_of_str (as_str v).
+Definition string_of_str (s : str) : text :=
+  fold_right (fun n acc => TChr (ascii_of_N n) acc) TNil s.
+Fixpoint str_of_string (s : text) : str :=
+  match s with TNil => [] | TChr a r => N_of_ascii a :: str_of_string r end.
+Definition vstring (s : text) : val := vstr (str_of_string s).
+Definition as_string (v : val) : option text := option_map string_of_str (as_str v).
 
 Definition vmode (m : lockmode) : val := VN (match m with LR => 0 | LW => 1 | LNone => 2 end).
 Definition as_mode (v : val) : option lockmode :=
   match v with VN 0 => Some LR | VN 1 => Some LW | VN 2 => Some LNone | _ => None end.
-Definition vclass (m : string) : val :=
+Definition vclass (m : text) : val :=
   VN (match classify m with Some (CRead, _) => 0 | Some (CWrite, _) => 1 | Some (CPure, _) => 2 | None => 3 end).
 
 (* the mode a call of Enforcer method m REQUIRES according to the hand table (what the monitor enforces on
    observed executions, whatever lock the wrapper really took) *)
-Definition required_mode (m : string) : lockmode :=
+Definition required_mode (m : text) : lockmode :=
   if mutating m then LW else if stateless m then LNone else LR.
 
 Definition vwrapper (w : wrapper) : val :=
@@ -586,7 +588,7 @@ Definition as_event (v : val) : option (list event) :=
 Definition tag_of (t i : nat) : N := N.of_nat t * 1000 + N.of_nat i + 1.
 
 (* thread programs from method names: the REQUIRED mode of every call *)
-Definition fprogs (names : list (list string)) : list (list fcall) :=
+Definition fprogs (names : list (list text)) : list (list fcall) :=
   map (fun tl => map (fun im => {| fc_tag := tag_of (fst tl) (fst im);
                                    fc_mode := required_mode (snd im);
                                    fc_mut := mutating (snd im) |})
